@@ -255,6 +255,81 @@ func wireMutate(r *wireRun, rounds int) {
 			})
 			b2.emit(r.tr)
 		}
+		// BLOB columns (outside the C06 domain, but a parser a server can reach): a hand-built
+		// ROWFMT2 with an INT4 and a BLOB column, and ROW data with chunked blob data
+		for _, blobType := range []int{3, 4, 5, 1, 6} {
+			col := func(dt int, trailer []byte) []byte {
+				w := &wbuf{}
+				w.s8("")
+				w.s8("")
+				w.s8("")
+				w.s8("")
+				w.s8("c")
+				w.u32(0)
+				w.u32(0)
+				w.u8(dt)
+				w.raw(trailer)
+				w.s8("")
+				return w.b
+			}
+			bt := &wbuf{}
+			bt.u8(255)
+			bt.u8(blobType)
+			if blobType == 1 || blobType == 2 {
+				bt.s16("cls")
+			}
+			cols := append(col(0x38, nil), col(0x24, bt.b)...)
+			var fp tds.Package
+			var body []byte
+			for delta := 0; delta <= 3 && fp == nil; delta++ { // the library's own length bookkeeping for BLOB is off by a constant
+				w := &wbuf{}
+				w.u32(uint32(2 + len(cols) - delta))
+				w.u16(2)
+				w.raw(cols)
+				p, _ := tds.LookupPackage(tds.TDS_ROWFMT2)
+				if st, _ := readPkg(p, w.b); st == "ok" {
+					fp, body = p, w.b
+				}
+			}
+			if fp == nil {
+				continue
+			}
+			bf := &mutBatch{level: "package", kind: fmt.Sprintf("FMTBLOB%d", blobType)}
+			mutations(r.rng, body, func(m []byte) {
+				bf.run(m, func() string {
+					p, _ := tds.LookupPackage(tds.TDS_ROWFMT2)
+					st, _ := readPkg(p, m)
+					return st
+				})
+			})
+			bf.emit(r.tr)
+			d := &wbuf{}
+			d.u32(7)  // INT4
+			d.u8(0)   // serialization
+			if blobType == 1 || blobType == 2 || blobType >= 6 {
+				d.s16("sub")
+			}
+			d.u32(5)
+			d.raw([]byte("hello"))
+			d.u32(3)
+			d.raw([]byte("abc"))
+			d.u32(0x80000000)
+			bd := &mutBatch{level: "data", kind: fmt.Sprintf("BLOBDATA%d", blobType)}
+			mutations(r.rng, d.b, func(m []byte) {
+				bd.run(m, func() string {
+					p, _ := tds.LookupPackage(tds.TDS_ROW)
+					if err := p.(tds.LastPkgAcceptor).LastPkg(fp); err != nil {
+						return "err"
+					}
+					st, _ := readPkg(p, m)
+					if st == "ok" {
+						_ = p.String()
+					}
+					return st
+				})
+			})
+			bd.emit(r.tr)
+		}
 		// ENVCHANGE / LOGINACK / CAPABILITY / ORDERBY2
 		others := map[string][]byte{
 			"ENVCHANGE":  encEnvChange([3]string{"\x01", "a", "b"}, [3]string{"\x04", "2048", "512"}),
